@@ -14,7 +14,7 @@ TEMPLATE = "--template={file}:{line}:{column}:{severity}:{id}:{message}"
 ALL_FIELDS = ["product", "warning", "style", "performance", "portability", "information", "userDefines",
               "checkConfiguration", "force", "maxConfigs", "checkLevel", "addonInfos", "premiumArgs", "suppressions",
               "inconclusive", "unusedFunction", "missingInclude", "userUndefs", "includePaths", "standards",
-              "enforcedLang", "platform", "libraries", "filePath"]
+              "enforcedLang", "platform", "libraries", "filePath", "getMaxConfigs"]
 
 
 class Scratch:
@@ -184,6 +184,9 @@ def default_renderings(version, opts=None):
         "premiumArgs": o.get("premiumArgs", ""),
         "suppressions": o.get("suppdump", "  <suppressions>\n  </suppressions>\n"),
     }
+    # Settings::getMaxConfigs()
+    r["getMaxConfigs"] = str(2147483647 if o.get("force") else o["maxConfigs"] if o.get("maxConfigs", 0) != 0
+                             else 1 if o.get("userDefines") else 12)
     for k in ALL_FIELDS:
         r.setdefault(k, o.get("render_" + k, ""))
     return [r[k] for k in ALL_FIELDS]
